@@ -188,6 +188,16 @@ def spec_cls(a):
                 warm=['0, 1', '4, 3', '2, 2'], timeout=150, stubs=False)
 
 
+def spec_cls_pair(a, b):
+    """Two class-valued options (e.g. violation_type and the violation_door_type it defaults)."""
+    params = [('i1', 'int'), ('j1', 'int'), ('i2', 'int'), ('j2', 'int')]
+    body = (f"P = [VerifError, VerifWarning, None]\n"
+            f"return check_history([{{'{a}': pick(P, i1), '{b}': pick(P, j1)}}, {{'{b}': pick(P, j2), '{a}': pick(P, i2)}}])")
+    return Spec(f'clspair_{a}_{b}', params, body, setup=SETUP,
+                pre=['0 <= i1 < 3', '0 <= i2 < 3', '0 <= j1 < 3', '0 <= j2 < 3'],
+                warm=['0, 1, 0, 1', '2, 2, 0, 0', '0, 0, 0, 2'], timeout=200, stubs=False)
+
+
 def spec_cls_bool(a, b):
     params = [('i1', 'int'), ('i2', 'int'), ('w1', NUM), ('w2', NUM)]
     body = (f"return check_history([{{'{a}': pick(CLASSES, i1), '{b}': w1}}, {{'{b}': w2, '{a}': pick(CLASSES, i2)}}])")
@@ -202,13 +212,17 @@ def specs(tier, seed=0):
     if tier == 'quick':
         out = [spec_single('is_debug'), spec_single('is_random'), spec_single('is_color')]
         out += [spec_bool_pair(*pairs[i]) for i in (0, 5)]
-        out += [spec_enum('strategy', 'is_debug'), spec_cls('violation_type'), spec_cls('warning_cls_on_decorator_exception')]
+        out += [spec_enum('strategy', 'is_debug'), spec_cls('violation_type'), spec_cls('warning_cls_on_decorator_exception'),
+                spec_cls_pair('violation_type', 'violation_door_type')]
         return out
     out += [spec_bool_pair(a, b) for a, b in pairs]
     out += [spec_triple(a) for a in BOOL_OPTS]
     for i, a in enumerate(ENUM_OPTS):
         for b in (BOOL_OPTS[i % len(BOOL_OPTS)], BOOL_OPTS[(i + 2) % len(BOOL_OPTS)]):
             out.append(spec_enum(a, b))
+    for a, b in (('violation_type', 'violation_door_type'), ('violation_type', 'violation_param_type'),
+                 ('violation_type', 'violation_return_type'), ('violation_door_type', 'violation_return_type')):
+        out.append(spec_cls_pair(a, b))
     for i, a in enumerate(CLS_OPTS):
         out.append(spec_cls(a))
         out.append(spec_cls_bool(a, BOOL_OPTS[i % len(BOOL_OPTS)]))
